@@ -90,6 +90,7 @@ class Tape:
     def __init__(self):
         self.nodes = []
         self.clock = 0  # set by the world: epoch counter
+        self.vmax = 1.0  # largest finite |value| seen so far (absolute-error scale for cancellation)
 
     # ------------------------------------------------------------------ construction
     def _add(self, kind, parents, params, const):
@@ -98,6 +99,10 @@ class Tape:
         n = Node(len(self.nodes), kind, tuple(parents), params, val, const)
         n.born = self.clock
         n.nondiff = self._is_nondiff(kind, vals, params, val)
+        if val.size:
+            m = float(np.max(np.abs(val)))
+            if np.isfinite(m) and m > self.vmax:
+                self.vmax = m
         self.nodes.append(n)
         return n.i
 
@@ -105,6 +110,10 @@ class Tape:
         v = np.array(val, dtype=np.float64)
         n = Node(len(self.nodes), "leaf", (), None, v, bool(const))
         n.born = self.clock
+        if v.size:
+            m = float(np.max(np.abs(v)))
+            if np.isfinite(m) and m > self.vmax:
+                self.vmax = m
         self.nodes.append(n)
         return n.i
 
